@@ -882,9 +882,9 @@ let fwd_safe w sg a b s =
          (in_rangeb (prom_w w) (prom_s w sg) (Z.add b (Z.abs s)))
   else in_rangeb w sg (Z.add a (Z.mul s (py_range_len a b s)))
 
-(** val rev_safe : z -> bool -> z -> z -> z -> z -> bool **)
+(** val rev_safe : z -> bool -> z -> z -> z -> bool **)
 
-let rev_safe w sg b1 a _ s =
+let rev_safe w sg b1 a s =
   (&&) (in_rangeb w sg b1)
     (if unsigned_desc sg (Z.ltb s Z0) true
      then (&&)
